@@ -123,6 +123,11 @@ CLAIMED = {
    note=TB + "The key-and-value recursive map strategy generates no setter (by design of the macro) and is excluded. Found and repaired defect D3 (fix: commit df32b44). The attribute decision table (setters / setter / skip_setter / setter_name) is mirrored by the generator's deterministic plan and checked by compiling and calling exactly the planned setters.",
    technique="Coq proof (setter = assign + field diff; replay as instance of the follower theorem) + differential execution of generated setters",
    design="5/C15"),
+ 'C16': dict(
+   text="(a) Machine-checked theorem (Coq): the derive model is parametric in ALL three hash iteration orders (unordered array, flat map, recursive map; each only required to be a permutation) — what the hasher feature can change; feature_invariance: under any two choices the results of diff followed by apply both satisfy the round-trip relation and are both equivalent to b (identical up to the order of unordered collections and the old-or-new latitude of ignored data). (b) Structural tie: every cfg(feature) site of the library and the macro (115) is classified (use / type alias / generic bound / derive list / module / assertion / macro code generation) and pinned; a new or changed site breaks the tie. (c) Configuration enumeration: the same seeded derive-level workload is compiled and run under feature sets of the library (quick: 6 representative sets incl. none and all six; thorough: all 64, exhaustive) and every observation must be identical across sets; the debug_diffs set must satisfy the oracles of C01/C03/C04/C13 and agree with the model.",
+   note=TB + "The unreachable debug_asserts arms are not proved unreachable in Coq; they are exercised by running every configuration in a debug build (debug assertions on). Shapes are restricted to containers nanoserde 0.1.37 can encode so that the same workload compiles under every set.",
+   technique="Coq proof parametric in all hash iteration orders + pinned cfg(feature) sites + enumeration of feature sets (exhaustive in thorough)",
+   design="5/C16"),
 }
 NA_REASON = "check not wired into the manifest yet at this commit (build in progress; see DESIGN.md section 5 for the planned theorem and tie)"
 
